@@ -86,6 +86,16 @@ pub fn table_sized(max_keys: usize, max_versions: usize, value_len: BoxedStrateg
 
 /// A program of cursor calls; the first call is always an absolute seek.
 pub fn program(universe: Vec<Vec<u8>>, max_len: usize) -> impl Strategy<Value = Vec<CursorOp>> {
+    program_from(universe, max_len, false)
+}
+
+/// A program of cursor calls for a freshly constructed cursor: in a third of the cases the first
+/// call is a relative one (next / prev), so that the position a constructor leaves is observed.
+pub fn program_maybe_fresh(universe: Vec<Vec<u8>>, max_len: usize) -> impl Strategy<Value = Vec<CursorOp>> {
+    prop_oneof![2 => program_from(universe.clone(), max_len, false), 1 => program_from(universe, max_len, true)]
+}
+
+fn program_from(universe: Vec<Vec<u8>>, max_len: usize, fresh: bool) -> impl Strategy<Value = Vec<CursorOp>> {
     let mut targets: Vec<Vec<u8>> = vec![];
     for k in universe.iter() {
         for n in gens::neighbours(k) {
@@ -99,7 +109,11 @@ pub fn program(universe: Vec<Vec<u8>>, max_len: usize) -> impl Strategy<Value = 
     let t1 = targets.clone();
     let seek = (any::<u16>()).prop_map(move |s| CursorOp::Seek(t1[gens::sel(s, t1.len())].clone()));
     let seek2 = seek.clone();
-    let first = prop_oneof![2 => Just(CursorOp::SeekToFirst), 2 => Just(CursorOp::SeekToLast), 3 => seek];
+    let first = if fresh {
+        prop_oneof![3 => Just(CursorOp::Next), 2 => Just(CursorOp::Prev)].boxed()
+    } else {
+        prop_oneof![2 => Just(CursorOp::SeekToFirst), 2 => Just(CursorOp::SeekToLast), 3 => seek].boxed()
+    };
     let rest = prop_oneof![
         35 => Just(CursorOp::Next),
         32 => Just(CursorOp::Prev),
